@@ -464,14 +464,86 @@ def _detail(name):
   return parts[-1] if parts[0] in ("bb", "bn", "hier", "b3") else ":".join(parts[1:])
 
 
+# ------------------------------------------------------------------ hand-written designs: writes through @s.func functions
+
+FUNC_HEAD = """from pymtl3 import *
+
+class FuncD( Component ):
+  def construct( s ):
+    s.in_ = InPort( Bits4 )
+    s.x = Wire( Bits4 )
+    s.y = Wire( Bits4 )
+    s.out = OutPort( Bits4 )
+"""
+F_DEFS = {
+  "f": ["@s.func", "def f():", "  s.x @= s.in_"],
+  "g": ["@s.func", "def g():", "  f()"],                      # g -> f
+  "h": ["@s.func", "def h():", "  f()", "  s.y @= s.in_"],    # h -> f, and writes y itself
+  "fy": ["@s.func", "def fy():", "  s.y @= s.in_ + 1"],
+}
+
+
+def func_cases():
+  """(name, [function names], [(block name, [statements])], expected exception class name | None); a function's writes count for
+  EVERY update block that reaches it through calls; one block reaching it twice is still one driver"""
+  rd = ("up_rd", ["s.out @= s.x + s.y"])
+  yd = ("up_y", ["s.y @= s.in_"])
+  C = [
+    ("one-caller", ["f"], [("upA", ["f()"]), yd, rd], None),
+    ("two-callers", ["f"], [("upA", ["f()"]), ("upB", ["f()"]), yd, rd], "MultiWriterError"),
+    ("caller+direct-writer", ["f"], [("upA", ["f()"]), ("upB", ["s.x @= 3"]), yd, rd], "MultiWriterError"),
+    ("nested+direct-call", ["f", "g"], [("upA", ["g()"]), ("upB", ["f()"]), yd, rd], "MultiWriterError"),
+    ("two-nested", ["f", "g", "h"], [("upA", ["g()"]), ("upB", ["h()"]), rd], "MultiWriterError"),
+    ("diamond-in-one-block", ["f", "g", "h"], [("upA", ["g()", "h()"]), rd], None),
+    ("called-twice-in-one-block", ["f"], [("upA", ["f()", "f()"]), yd, rd], None),
+    ("different-functions", ["f", "fy"], [("upA", ["f()"]), ("upB", ["fy()"]), rd], None),
+    ("second-caller-of-other-function-writes-y-too", ["f", "fy", "h"], [("upA", ["h()"]), ("upB", ["fy()"]), rd], "MultiWriterError"),
+    ("three-callers", ["f"], [("upA", ["f()"]), ("upB", ["f()"]), ("upC", ["f()"]), yd, rd], "MultiWriterError"),
+  ]
+  for name, fns, blocks, want in C:
+    for order in (0, 1):
+      bl = list(reversed(blocks)) if order else blocks
+      lines = []
+      for fn in fns: lines += F_DEFS[fn]
+      for bn, stmts in bl:
+        lines += ["@update", f"def {bn}():"] + ["  " + st for st in stmts]
+      yield f"func:{name}:order{order}", FUNC_HEAD + "".join("    " + l + "\n" for l in lines), want
+
+
+def check_func_case(name, src, want, acc):
+  for hp in (0, 1, 2):
+    mult = (1, 7919, 104729)[hp]
+    with seams.hash_seam(lambda o, i: (i * mult + hp) % 1000003):
+      mod = ir.load_src(src)
+      try:
+        top = mod.FuncD()
+        top.elaborate()
+        got = None
+      except Exception as ex:
+        got = type(ex).__name__
+        msg = str(ex)[:140]
+      finally:
+        ir.unload(mod.__name__)
+    acc.count("evaluations")
+    if got != want:
+      sig = f"func:legal-design-rejected:{got}" if want is None else (f"func:illegal-design-accepted:{want}" if got is None else f"func:wrong-error:{want}->{got}")
+      acc.violation(sig + ":" + name.split(":")[1], dict(name=name, kind="func", hp=hp), want, got if got is None else f"{got}: {msg}", name)
+  acc.count("cases")
+  acc.add("expect", ("func", want))
+  acc.count("illegal" if want else "legal")
+
+
 def shards(tier):
   k = 48
-  return [(i, k) for i in range(k)]
+  return [(i, k) for i in range(k)] + [("func",)]
 
 
 def run_shard(shard, tier, seed):
   acc = Acc()
   TIER[0] = tier
+  if shard[0] == "func":
+    for name, src, want in func_cases(): check_func_case(name, src, want, acc)
+    return acc
   for j, (name, d) in enumerate(all_cases()):
     if j % shard[1] != shard[0]: continue
     check_case(name, d, acc)
@@ -481,6 +553,10 @@ def run_shard(shard, tier, seed):
 
 def replay(case):
   acc = Acc()
+  if case.get("kind") == "func":
+    for name, src, want in func_cases():
+      if name == case["name"]: check_func_case(name, src, want, acc)
+    return [(v["sig"], v["expected"], v["observed"], v["msg"]) for v in acc.violations][:4]
   TIER[0] = "thorough" if case["name"].startswith("b3:") or case.get("hp", 0) > 2 else "quick"
   check_case(case["name"], ir.norm_comp(case["ir"]), acc)
   return [(v["sig"], v["expected"], v["observed"], v["msg"]) for v in acc.violations][:4]
